@@ -222,3 +222,125 @@ func SliceRange(s *ssa.Slice, atom func(ssa.Value) string) (root ssa.Value, lo, 
 	}
 	return root, lo, hi
 }
+
+// StructFieldAffine evaluates field `field` of the struct value sv as an affine form when the
+// struct is an immutable carrier of integers: the result of a library function that builds it with
+// a composite literal (possibly through another such function), a by-value parameter that every
+// caller supplies with such a value, or a local composite. Parameters of the building functions
+// are replaced by the arguments of the very call that built the value (context-sensitive), other
+// atoms are resolved by atom. callers lists the static call sites per function.
+func StructFieldAffine(sv ssa.Value, field int, atom func(ssa.Value) string, callers map[*ssa.Function][]*ssa.Call, depth int) Affine {
+	if depth > 6 || sv == nil {
+		return Affine{}
+	}
+	agree := func(list []Affine) Affine {
+		if len(list) == 0 {
+			return Affine{}
+		}
+		for _, a := range list {
+			if !a.OK || !a.Equal(list[0]) {
+				return Affine{}
+			}
+		}
+		return list[0]
+	}
+	switch s := sv.(type) {
+	case *ssa.Call:
+		callee := s.Call.StaticCallee()
+		if callee == nil || !InLib(callee) || len(callee.Blocks) == 0 {
+			return Affine{}
+		}
+		// atoms of the callee's frame: its parameters are the arguments of this call
+		ctxAtom := func(v ssa.Value) string {
+			if prm, ok := v.(*ssa.Parameter); ok && prm.Parent() == callee {
+				for i, q := range callee.Params {
+					if q == prm && i < len(s.Call.Args) {
+						a := affineOf(s.Call.Args[i], atom, depth+1)
+						if a.OK {
+							return a.Encode()
+						}
+						return ""
+					}
+				}
+			}
+			return atom(v)
+		}
+		var list []Affine
+		for _, ret := range Returns(callee) {
+			if len(ret.Results) != 1 {
+				return Affine{}
+			}
+			list = append(list, StructFieldAffine(ret.Results[0], field, ctxAtom, callers, depth+1))
+		}
+		return agree(list)
+	case *ssa.Parameter:
+		fn := s.Parent()
+		idx := -1
+		for i, q := range fn.Params {
+			if q == s {
+				idx = i
+			}
+		}
+		cs := callers[fn]
+		if idx < 0 || len(cs) == 0 {
+			return Affine{}
+		}
+		var list []Affine
+		for _, c := range cs {
+			if idx >= len(c.Call.Args) {
+				return Affine{}
+			}
+			list = append(list, StructFieldAffine(c.Call.Args[idx], field, atom, callers, depth+1))
+		}
+		return agree(list)
+	case *ssa.UnOp:
+		if s.Op != token.MUL {
+			return Affine{}
+		}
+		al, ok := s.X.(*ssa.Alloc)
+		if !ok {
+			return Affine{}
+		}
+		return StructFieldOfAlloc(al, field, atom, callers, depth)
+	}
+	return Affine{}
+}
+
+// StructFieldOfAlloc: the same for a struct held in a local variable (al): the field is written
+// once through its address, or the whole struct is stored once (from a call, a parameter or another
+// local), or the field is left at zero.
+func StructFieldOfAlloc(al *ssa.Alloc, field int, atom func(ssa.Value) string, callers map[*ssa.Function][]*ssa.Call, depth int) Affine {
+	if depth > 6 || al.Referrers() == nil || !LocalOnlyAlloc(al) {
+		return Affine{}
+	}
+	{
+		var vals []ssa.Value
+		var whole []ssa.Value
+		for _, ref := range *al.Referrers() {
+			switch r := ref.(type) {
+			case *ssa.FieldAddr:
+				if r.Field != field || r.Referrers() == nil {
+					continue
+				}
+				for _, r2 := range *r.Referrers() {
+					if st, ok := r2.(*ssa.Store); ok && st.Addr == ssa.Value(r) {
+						vals = append(vals, st.Val)
+					}
+				}
+			case *ssa.Store:
+				if r.Addr == ssa.Value(al) {
+					whole = append(whole, r.Val)
+				}
+			}
+		}
+		switch {
+		case len(vals) == 1 && len(whole) == 0:
+			return affineOf(vals[0], atom, depth+1)
+		case len(vals) == 0 && len(whole) == 1:
+			return StructFieldAffine(whole[0], field, atom, callers, depth+1)
+		case len(vals) == 0 && len(whole) == 0:
+			return affConst(0) // field left at its zero value by the composite literal
+		}
+	}
+	return Affine{}
+}
